@@ -534,6 +534,6 @@ def quota(counters, tier):
             out.append("monitor-never-reached:" + k)
     # a generated machine may legitimately stay busy for longer than the harness waits (large
     # finite raise fan-out under a 5000-event burst); such histories are skipped, not judged
-    if counters.get("async.undrained", 0) > 0.02 * max(1, counters.get("histories.async", 0)):
+    if counters.get("async.undrained", 0) > 0.05 * max(1, counters.get("histories.async", 0)):
         out.append("async-not-drained:%d" % counters["async.undrained"])
     return out
